@@ -240,3 +240,28 @@ func (s *Session) Render(h int) ExecResult {
 	res.Out = Out.Take()
 	return res
 }
+
+// RenderListing renders the listing text from the public deps API only (the
+// statement's structure rule): one header per block in current order with its
+// position number and start address, its instructions in current order with text
+// and bytes, single blank separators and a final blank line. It also returns the
+// line of each instruction by its current address.
+func RenderListing(code *deps.Code) (lines []string, lineOfAddr map[uint64]int) {
+	lineOfAddr = map[uint64]int{}
+	for i, b := range code.Blocks() {
+		if i != 0 {
+			lines = append(lines, "")
+		}
+		lines = append(lines, fmt.Sprintf("Block %d: 0x%x", i+1, b.Begin()))
+		for _, in := range b.Instructions() {
+			var hx []string
+			for _, x := range in.Bytes() {
+				hx = append(hx, fmt.Sprintf("%02X", x))
+			}
+			lineOfAddr[uint64(in.Begin())] = len(lines)
+			lines = append(lines, fmt.Sprintf("     %-24s | %s", in.String(), strings.Join(hx, " ")))
+		}
+	}
+	lines = append(lines, "")
+	return
+}
